@@ -788,7 +788,14 @@ func puppetSticky(p *puppet, r *rand.Rand) {
 				defer close(done)
 				p.eps[req.LeaderID].SendInstallSnapshot("p", req)
 			}()
-			defer func() { <-done }()
+			defer func() {
+				// the handler returns when Restore ends; if it waits for something else it is released by the Stop() that ends the case
+				select {
+				case <-done:
+				case <-time.After(time.Duration(p.C.Opts.FSM.RestoreUs)*time.Microsecond + time.Second):
+					p.x.Cover("sticky-install-still-running-at-end")
+				}
+			}()
 			time.Sleep(et + et/4)
 			hb := raft.AppendEntriesRequest{LeaderID: leaderOf(term), Term: term, PrevLogIndex: uint64(sidx), PrevLogTerm: w.termAt(t, sidx)}
 			resp, err := p.eps[leaderOf(term)].SendAppendEntries("p", hb)
